@@ -1,0 +1,27 @@
+/*!
+Test-only instrumentation for the verification harness.
+
+This module only exists when the crate is built with `--cfg emit_rs_emit_verif`. It lets a harness divide
+every wait of a [`crate::Receiver`] (idle polling and retry back-off) so that end-to-end retry scenarios finish
+in milliseconds instead of minutes. The override is process-wide. With the cfg off nothing in the crate changes.
+*/
+
+use std::{
+    sync::atomic::{AtomicU64, Ordering},
+    time::Duration,
+};
+
+static WAIT_DIVISOR: AtomicU64 = AtomicU64::new(1);
+
+/**
+Divide every wait of the background receivers (idle polling and retry back-off) by `divisor`.
+
+Passing `1` restores the default. A `divisor` of `0` is treated as `1`.
+*/
+pub fn set_wait_divisor(divisor: u32) {
+    WAIT_DIVISOR.store(std::cmp::max(1, divisor) as u64, Ordering::SeqCst);
+}
+
+pub(crate) fn scale_wait(wait: Duration) -> Duration {
+    wait / (WAIT_DIVISOR.load(Ordering::SeqCst) as u32)
+}
